@@ -16,6 +16,7 @@ mod plugin;
 mod scheduler;
 mod signal;
 mod store;
+mod sync;
 mod utils;
 #[cfg(feature = "verif")]
 pub mod verif;
@@ -23,8 +24,8 @@ pub mod verif;
 #[cfg(test)]
 mod tests;
 
+use crate::sync::RwLock;
 use std::sync::Arc;
-use std::sync::RwLock;
 
 pub use builder::EngineBuilder;
 pub use config::Config;
